@@ -1,15 +1,51 @@
-import ChythonModel.Model.C11Sdf
+import ChythonModel.Proofs.C11Lemmas
+import ChythonModel.Proofs.C11Frame
+import ChythonModel.Gen.PeriodicTable
 /-!
-# C11 — MDL write→read: property theorems (about the model functions the driver runs)
+# C11 — MDL write→read preserves the record: property theorems
+
+Every theorem is about the model functions the driver `Drivers/C11.lean` runs (`fmtD`, `fmtF4`, `pyInt?`, `pyFloat?`,
+`writeAtomLine`/`parseAtomLine`, `bondText`/`wedgeText`/`parseBondLine`, `applyCtf`, `writeMol2000`/`parseMol2000`,
+`readBlock`, `iterate`, `getItem`, `readMeta`, `rdfReadMeta`, …). The model is tied to the source by the regenerated
+tables (`Gen/MdlTables.lean`, `Gen/PeriodicTable.lean`) and by the correspondence streams of `harness/props/c11.py`.
+
+Excluded input classes are explicit hypotheses (`WFAtom`, `WFBlock`, `WFKey`, `WFValueLine`); for each class that the
+property text nevertheless covers, the unrestricted statement is kept as a `def … : Prop`, its negation is proved in
+`Findings/C11.lean`, and the class is a known finding with a probe on the real code.
 -/
 namespace ChythonModel.Props.C11
-open ChythonModel.Model.C11 ChythonModel.Gen.Mdl
+open ChythonModel.Model.C11 ChythonModel.Gen.Mdl ChythonModel.Proofs.C11
 
-/-! ## charges: column code and `M  CHG` (tables regenerated from write.py / mol.py) -/
+/-! ## 1. fixed-width fields -/
+
+/-- `int(f'{n:{w}d}') == n` for every integer and every width (`{:3d}` fields: counts, atom numbers, mapping, isotopes) -/
+theorem int_field_roundtrip (w : Nat) (n : Int) : pyInt? (fmtD w n) = some n := pyInt_fmtD w n
+
+/-- `{n:3d}` then `int()` is the identity on 0…999 **and the field is exactly 3 columns wide** (so the fixed column
+    slices of the reader hit it); decided over the whole range -/
+theorem field3_roundtrip :
+    ∀ n ∈ List.range 1000, pyInt? (fmtD 3 (n : Int)) = some (n : Int) ∧ (fmtD 3 (n : Int)).length = 3 := by
+  decide +kernel
+
+/-- the same width fact, proved for all `0 ≤ m ≤ 999` (used by the line theorems) -/
+theorem field3_width (m : Int) (h0 : 0 ≤ m) (h : m ≤ 999) : (fmtD 3 m).length = 3 := fmtD3_length h0 h
+
+/-- a number ≥ 1000 does **not** fit: the writer must refuse it (it does: `max(g) > 999` raises) -/
+theorem field3_overflow : (fmtD 3 1000).length = 4 := by decide
+
+/-- `float(f'{x:{w}.4f}')` is exactly `x` for every coordinate `x = k/10000` -/
+theorem coord_field_roundtrip (w : Nat) (k : Int) : pyFloat? (fmtF4 w k) = .ok (Dec.ofTenThousandths k) :=
+  pyFloat_fmtF4 w k
+
+/-! ## 2. charges (tables regenerated from write.py / mol.py) -/
 
 /-- every charge −3…3 survives the atom-line column code -/
 theorem charge_code_roundtrip :
     ∀ c ∈ [(-3 : Int), -2, -1, 0, 1, 2, 3], (writeCharge c >>= readCharge) = .ok c := by decide +kernel
+
+/-- every written column code is 3 wide and reads back as the charge, except ±4 which read as 0 (repaired by `M  CHG`) -/
+theorem charge_code_table : ∀ c ∈ [(-4 : Int), -3, -2, -1, 0, 1, 2, 3, 4],
+    ((writeCharge c).map (·.length) = .ok 3 ∧ (writeCharge c >>= readCharge) = .ok (lineCharge c)) := charge_table
 
 /-- a one-atom molecule with the given charge / isotope / radical flag -/
 def oneAtom (c : Int) (iso : Nat) (rad : Bool) : WMol :=
@@ -21,14 +57,108 @@ def throughText (c : Int) (iso : Nat) (rad : Bool) : R (List (Int × Option Int 
   let m ← parseMol2000 ls
   pure (m.atoms.map fun a => (a.charge, a.isotope, a.rad))
 
-/-- all charges −4…4, through the column code **and** the `M  CHG` line (±4 are written as code 0 + `M  CHG`) -/
+/-- all charges −4…4 through the whole block: column code **and** the `M  CHG` line -/
 theorem charge_roundtrip :
     ∀ c ∈ [(-4 : Int), -3, -2, -1, 0, 1, 2, 3, 4], throughText c 0 false = .ok [(c, none, false)] := by
   decide +kernel
 
-/-- `{n:3d}` then `int()` is the identity on 0…999 and the field is exactly 3 wide -/
-theorem field3_roundtrip :
-    ∀ n ∈ List.range 1000, pyInt? (fmtD 3 (n : Int)) = some (n : Int) ∧ (fmtD 3 (n : Int)).length = 3 := by
-  decide +kernel
+/-- isotope and radical lines through the whole block (samples of the general `prop_line_roundtrip`) -/
+theorem iso_rad_roundtrip :
+    ∀ p ∈ [((13 : Nat), true), (2, false), (235, true), (999, false)],
+      throughText 0 p.1 p.2 = .ok [(0, some (p.1 : Int), p.2)] := by decide +kernel
+
+/-! ## 3. V2000 lines -/
+
+/-- **atom line**: for every atom that fits its columns, the reader's slices of the written line give back symbol,
+    charge code, mapping number and the exact coordinates -/
+theorem atomline_roundtrip (mapping : Bool) (a : WAtom) (h : WFAtom a) :
+    (writeAtomLine mapping a >>= parseAtomLine) = .ok (expectedAtom mapping a) :=
+  ChythonModel.Proofs.C11.atomline_roundtrip mapping a h
+
+/-- the hypotheses are satisfiable by a non-trivial atom -/
+example : WFAtom { num := 999, sym := ['C', 'l'], x := -123456, y := 99999999, charge := -3, iso := 37, rad := true, nbrs := [] } :=
+  ⟨by decide, by decide, by decide, by decide, by decide, by decide, by decide, by decide, by decide⟩
+
+/-- every element symbol of the regenerated periodic table satisfies the symbol part of `WFAtom`
+    (≤ 3 characters, no blanks, not mistaken for the query atoms `A`/`L` or for deuterium `D`) -/
+theorem symbols_fit : ∀ r ∈ ChythonModel.Gen.periodicTable,
+    r.sym.toList.length ≤ 3 ∧ r.sym.toList ≠ [] ∧ (r.sym.toList.all fun c => !isSpace c) = true ∧
+    inAL r.sym.toList = false ∧ r.sym.toList ≠ ['D'] := by decide +kernel
+
+/-- **bond line**: atom positions ≤ 999 and orders 1…8 (incl. aromatic 4 and coordinate 8) come back; no stereo -/
+theorem bondline_roundtrip (i j o : Nat) (hi : i ≤ 999) (hj : j ≤ 999) (ho : o ≤ 8) :
+    parseBondLine (bondText i j o) = .ok (((i : Int) - 1, (j : Int) - 1, (o : Int)), none) :=
+  ChythonModel.Proofs.C11.bondline_roundtrip i j o hi hj ho
+
+/-- **wedge bond line**: additionally the wedge code (1 ↦ +1, 6 ↦ −1) comes back on the same ordered atom pair -/
+theorem wedgeline_roundtrip (i j o : Nat) (s : Int) (hi : i ≤ 999) (hj : j ≤ 999) (ho : o ≤ 8) (hs : s = 1 ∨ s = -1) :
+    parseBondLine (wedgeText i j o s) =
+      .ok (((i : Int) - 1, (j : Int) - 1, (o : Int)), some ((i : Int) - 1, (j : Int) - 1, s)) :=
+  ChythonModel.Proofs.C11.wedgeline_roundtrip i j o s hi hj ho hs
+
+/-- bond type 9 (written by other programs) is read as the special order 8 -/
+theorem bond_type9_is_8 : parseBondLine (bondText 1 2 9) = .ok ((0, 1, 8), none) := by decide +kernel
+
+/-- **`M  ISO / M  RAD / M  CHG` line** with one entry: sets exactly the field of exactly atom `n` -/
+theorem prop_line_roundtrip (kind : Char) (tag : Str) (n : Nat) (v : Int) (atoms : List PAtom)
+    (htag : tag.length = 6) (hn1 : 1 ≤ n) (hn : n ≤ atoms.length) (hn9 : n ≤ 999) (hv0 : -99 ≤ v) (hv : v ≤ 999) :
+    applyCtf kind (tag ++ sL "  1 " ++ fmtD 3 (n : Int) ++ sL " " ++ fmtD 3 v ++ sL "\n") 1 0 atoms =
+      .ok (setAt atoms (n - 1) fun a =>
+        if kind == 'C' then { a with charge := v } else if kind == 'I' then { a with isotope := some v }
+        else { a with rad := true }) := by
+  have hlen : (fmtD 3 v).length = 3 := by
+    by_cases h : 0 ≤ v
+    · exact fmtD3_length h hv
+    · have hm : v ∈ (List.range 99).map (fun (k : Nat) => -((k : Int) + 1)) := by
+        simp only [List.mem_map, List.mem_range]
+        exact ⟨(-v - 1).toNat, by omega, by omega⟩
+      have hall : ∀ u ∈ (List.range 99).map (fun (k : Nat) => -((k : Int) + 1)), (fmtD 3 u).length = 3 := by
+        decide +kernel
+      exact hall v hm
+  exact ctfLine_apply kind tag n v atoms htag hn1 hn hn9 (fmtD 3 v) hlen (pyInt_fmtD 3 v) _ rfl
+
+/-! ## 4. record framing (SDF): split ∘ render = id, damage is isolated, index = sequential -/
+
+/-- **frame_roundtrip**: iterating over a file rendered from blocks (each closed by `$$$$`) applies the structure
+    reader to exactly those blocks, in order, yields every record it accepts and skips the ones it rejects with a
+    `ValueError`/`LookupError`. `WFBlock`: non-empty, no line starts with `$$$$`, fits the read-ahead buffer. -/
+theorem frame_roundtrip (rs : Block → R ρ) (bufSize : Nat) (blocks : List (List Str)) (fuel : Nat)
+    (hf : blocks.length < fuel) (hwf : ∀ b ∈ blocks, WFBlock bufSize b)
+    (hnc : ∀ b ∈ blocks, NoCrash (rs ⟨b, firstMEnd b⟩)) :
+    iterate rs bufSize fuel (renderBlocks blocks) = (blocks.filterMap fun b => okPart (rs ⟨b, firstMEnd b⟩), none) :=
+  iterate_render rs bufSize blocks fuel hf hwf hnc
+
+/-- **damage_isolated**: replacing one record by arbitrary lines (that contain no `$$$$`-line and are not empty)
+    leaves the records read before and after it unchanged -/
+theorem damage_isolated (rs : Block → R ρ) (bufSize : Nat) (pre post : List (List Str)) (d : List Str) (fuel : Nat)
+    (hf : (pre ++ d :: post).length < fuel) (hwf : ∀ b ∈ pre ++ d :: post, WFBlock bufSize b)
+    (hnc : ∀ b ∈ pre ++ d :: post, NoCrash (rs ⟨b, firstMEnd b⟩)) :
+    (iterate rs bufSize fuel (renderBlocks (pre ++ d :: post))).1 =
+      (pre.filterMap fun b => okPart (rs ⟨b, firstMEnd b⟩)) ++ (okPart (rs ⟨d, firstMEnd d⟩)).toList ++
+      (post.filterMap fun b => okPart (rs ⟨b, firstMEnd b⟩)) := by
+  rw [iterate_render rs bufSize _ fuel hf hwf hnc]
+  simp only [List.filterMap_append, List.filterMap_cons]
+  cases okPart (rs ⟨d, firstMEnd d⟩) <;> simp
+
+/-- Full statement of damage isolation without the non-emptiness hypothesis on the damaged record. It is false of the
+    code (an empty record makes `_read_block` raise `EOFError`): see `Findings/C11.lean` and the known findings
+    `C11/damage/*/empty-record-ends-iteration`. -/
+def DamageIsolatedFull : Prop :=
+  ∀ (pre post : List (List Str)) (d : List Str), (∀ b ∈ pre ++ post, WFBlock 10000 b) → (∀ l ∈ d, isSep l = false) →
+    (iterate (fun b => (pure b : R Block)) 10000 ((pre ++ d :: post).length + 1) (renderBlocks (pre ++ d :: post))).1.length
+      ≥ pre.length + post.length
+
+/-- **index_eq_sequential**: `reader[i]` (grep-built index + seek) applies the structure reader to exactly the i-th block
+    that sequential reading sees -/
+theorem index_eq_sequential (rs : Block → R ρ) (bufSize : Nat) (blocks : List (List Str)) (i : Nat) (b : List Str)
+    (hwf : ∀ b ∈ blocks, WFBlock bufSize b) (hi : blocks[i]? = some b) :
+    getItem rs bufSize (renderBlocks blocks) i = rs ⟨b, firstMEnd b⟩ :=
+  getItem_render rs bufSize blocks i b hwf hi
+
+/-- the framing hypotheses are satisfiable: a two-record file whose second record is damaged -/
+example : ∀ b ∈ [[sL "a\n", sL "M  END\n"], [sL "junk $$$$\n"]], WFBlock 10 b := by
+  intro b hb
+  simp only [List.mem_cons, List.not_mem_nil, or_false] at hb
+  rcases hb with h | h <;> subst h <;> exact ⟨by decide, by decide, by decide⟩
 
 end ChythonModel.Props.C11
